@@ -45,6 +45,7 @@ class RenderContext:
     __slots__ = (
         "template",
         "globals",
+        "base_globals",
         "disabled_tags",
         "parent",
         "_copy_depth",
@@ -73,6 +74,10 @@ class RenderContext:
         self.template = template
         # NOTE: An empty mapping is falsy, but it might be populated later.
         self.globals = global_data if global_data is not None else {}
+
+        # Global data without any arguments passed to `render`, `call` etc. An
+        # isolated copy of this context is built on these, not on `globals`.
+        self.base_globals: Mapping[str, object] = self.globals
         self.disabled_tags = disabled_tags or set()
         self.parent = parent
         self._copy_depth = copy_depth
@@ -375,7 +380,7 @@ class RenderContext:
         else:
             ctx = self.__class__(
                 template or self.template,
-                global_data=ReadOnlyChainMap(namespace, self.globals),
+                global_data=ReadOnlyChainMap(namespace, self.base_globals),
                 disabled_tags=disabled_tags,
                 copy_depth=self._copy_depth + 1,
                 parent=self,
@@ -383,6 +388,7 @@ class RenderContext:
                 local_namespace_carry=self.get_size_of_locals(),
             )
 
+        ctx.base_globals = self.base_globals
         ctx.template = template or self.template
         return ctx
 
